@@ -128,5 +128,31 @@ def main():
     print("checks:", [c["property_id"] for c in checks], "n/a:", len(na))
 
 NA = {}
+
+# what was added to each check after its first registration (DESIGN.md 12.2, 12.4-12.6); appended to technique / text
+ADDED = {
+ "C01": ("; Ingester.tla (call protocol Transform / ingester / FormatReader) model-checked, proved for unbounded histories with TLAPS (Transform_proof.tla, Ingester_proof.tla, thorough tier) and validated on call sequences recorded by a recording FormatReader around all 7 readers",
+         " A finite input must reach a terminal result within len(input)+3 Reads (reading can continue past a per-record failure)."),
+ "C02": ("; Stream.tla composes selection and evaluation over whole inputs (partial tree at delivery, declarations leaving the record, per-record vs shared result cache); families cast (conversion matrix over typed sources), dyn (xpath_dynamic), functions concat / coalesce / upper, external properties",
+         " Streams of several records with ancestor-anchored declarations are replayed with the expected value per record; result types int/float/boolean/string over typed sources."),
+ "C03": ("; Templates.tla (template expansion recursion: NoReentry, Verdict, Terminates under fairness) model-checked and every reference graph over 3 templates replayed on NewSchema; a Go runtime fatal error inside omniparser code is a violation (RepoCrash)", ""),
+ "C04": ("; qualified-name renderings (prefixes), family 'nested' (rejected candidate followed by a container with deeper candidates), XPathSplit.tla for the last-predicate splitter", ""),
+ "C05": ("; record shapes (one named unit / two units of any name / header..first footer) and a last-unit component in every delivered instance, bound to csv2, fixedlength2 and the scripted reader", ""),
+ "C06": ("; leading optional header/footer declaration whose look-ahead may fail, cached line text surviving popFrontLinesBuf; buffer-boundary sweep; two fixed-length payload renderings", ""),
+ "C07": ("; a missing declared element must be a fatal error (class, not wording)", ""),
+ "C08": ("; XMLTree.tla: namespace scoping with three designs of URI -> prefix (declaration stack = the code; both map designs refuted by TLC, counterexamples reproduced on the real reader and repaired: 980d548, c2dca8b), every unambiguous document of 2/3 elements replayed; reference DOM from raw decoder tokens with its own scoping", ""),
+ "C10": ("; bulk concatenation rounds (hundreds / thousands of records across buffer refills); failure kinds incl. throwing scripts", ""),
+ "C12": ("; several owners alive at once (stream readers driven directly with interleaved Read / Release + hand-built trees, audited after every call); acquisitions racing on 8 goroutines under the pool tracker", ""),
+ "C13": ("; pool-history phase (every compact item right after namespaced XML / typed JSON with GC held off); scripts that throw followed by scripts probing globals", ""),
+ "C15": ("; every process of the history under another TZ / locale environment; date-time and throwing-script corpus items", ""),
+ "C17": ("; Ingester.tla protocol validation (Release of exactly the delivered node, once, before the next Read) on recorded call sequences of all readers + TLAPS proof (thorough); cases with records failing their transform", ""),
+ "C18": ("; the code-page tables of Encoding.tla are bound to x/text charmap (specification sanity) and to the repository's decoder (verdict); utf-8 declared explicitly with BOM", ""),
+ "C19": ("; wall readings around every offset change of every zone (1975 / 2011 / 2021) bound to that zone", ""),
+ "C20": ("; typed declarations (int 0, float 0.0, boolean false, ...) as named arguments through a schema", ""),
+}
+for _p, (_t, _x) in ADDED.items():
+    CHECKS[_p]["technique"] += _t
+    CHECKS[_p]["text"] += _x
+
 if __name__ == "__main__":
     main()
